@@ -863,6 +863,38 @@ func mat7(c *Ctx) {
 		// foreign branches
 		isOne := func(v ssa.Value) bool { _, f, ok := ir.FieldLoad(v); return ok && f == "theOne" }
 		isBoolFn := c.fnOpt("internal/values", "IsBool")
+		foreignRegion := map[*ssa.BasicBlock]bool{}
+		scanHdrs := map[*ssa.BasicBlock]bool{} // headers of loops that go on past a foreign flag
+		defer func(fn *ssa.Function) {
+			// every "not mine, step over K tokens" verdict must come from a foreign-option branch, or be the
+			// end of the in-token scan (every letter was a foreign flag)
+			for _, rp := range ir.ReturnPoints(fn) {
+				if len(rp.Results) != 3 {
+					continue
+				}
+				v, isC := ir.ConstBool(rp.Results[0])
+				k, isK := ir.ConstInt(rp.Results[1])
+				if !isC || v || !isK || k == 0 {
+					continue
+				}
+				if foreignRegion[rp.At] {
+					continue
+				}
+				scanEnd := false
+				for h := range scanHdrs {
+					_, _, exit := loopBody(h)
+					if exit == nil {
+						continue
+					}
+					if !ir.Reach(fn.Blocks[0], nil, map[ir.Edge]bool{{From: h, To: exit}: true})[rp.At] {
+						scanEnd = true
+					}
+				}
+				key := fmt.Sprintf("%s:skip@%s", Q(fn), relLine(c, fn, rp.Anchor().Pos()))
+				c.Check(scanEnd, key, rp.Pos(), "a skip verdict outside the foreign branches is the end of the in-token scan",
+					fmt.Sprintf("returns (false, %d, args) for a token that was not looked up as a foreign option: the skip count cannot be justified (a following token may be skipped or read wrongly)", k))
+			}
+		}(fn)
 		ir.Instrs(fn, func(in ssa.Instruction) {
 			bo, ok := in.(*ssa.BinOp)
 			if !ok || !(bo.Op == token.NEQ || bo.Op == token.EQL) {
@@ -887,11 +919,18 @@ func mat7(c *Ctx) {
 					}
 				}
 				region := ir.ReachVia(e.From, e.To, headers, nil)
+				for b := range region {
+					foreignRegion[b] = true
+				}
 				continues := headers[e.To]
+				if continues {
+					scanHdrs[e.To] = true
+				}
 				for b := range region {
 					for _, sc := range b.Succs {
 						if headers[sc] {
 							continues = true
+							scanHdrs[sc] = true
 						}
 					}
 				}
